@@ -7,7 +7,7 @@ from .. import common, meta, progs, cfggen, robust
 
 LEVEL = "proof"
 RULE = ("Lean: writes to map keys a program never looks up are invisible to it; token classification (IsClassIdentifier / IsConstIdentifier over the flat BuiltinClasses list) ignores added "
-        "short names the identifier does not equal; the collision case is refuted with a witness. Streams tok (classification with the configured class list) and config. End-to-end: corpus and "
+        "short names the identifier does not equal; the collision case is refuted with a witness. Streams tok (classification with the configured class list), config and lookup (include/extend edges consult the list minus what the program defines at top level). End-to-end: corpus and "
         "generated programs analysed with and without generated extra configuration files whose class names the program never mentions (plain, in other frames, and namespaced `Zq::Name` where `Name` is a class the program defines itself); outputs of ti and ti -i "
         "must be identical. Non-trivial = baseline output non-empty.")
 
@@ -22,12 +22,22 @@ def extra_files(rng, mentioned):
         cls = {"frame": frame, "class": name,
                "instance_methods": [{"name": rng.choice(["to_s", "size", "each", "qx_m%d" % j, "foo", "name"]), "arguments": [{"type": [rng.choice(cfggen.ARG)]}],
                                      "return_type": {"type": [rng.choice(cfggen.RET)]}} for j in range(rng.randint(1, 4))],
-               "class_methods": [{"name": "new", "arguments": [], "return_type": {"type": [name]}}],
+               "class_methods": [{"name": "new", "arguments": [], "return_type": {"type": [name]}}] +
+                                ([{"name": rng.choice(["methods", "methods", "name", "class", "qx_cm"]), "arguments": [{"type": [rng.choice(cfggen.ARG)]}],
+                                   "return_type": {"type": ["Int"]}}] if rng.random() < 0.6 else []),      # names Object answers too
                "extends": rng.choice([[], [], ["String"], ["Enumerable"]])}
         assert name not in mentioned
         files["qx_extra_%d.json" % i] = cls
     # a namespaced class whose LAST segment is a class the program defines itself: `Zq::Item` is not `Item`
     own = sorted(set(re.findall(r"^\s*class\s+([A-Z][A-Za-z0-9]*[a-z][A-Za-z0-9]*)\b", mentioned, re.M)))
+    mods = sorted(set(re.findall(r"^\s*module\s+([A-Z][A-Za-z0-9]*[a-z][A-Za-z0-9]*)\b", mentioned, re.M)))
+    if (own or mods) and rng.random() < 0.7:
+        # a class of another frame with the short name of a class or MODULE the program defines (`Gui::Helper` is not `App::Helper`)
+        short = rng.choice(own + mods + mods)
+        files["qx_fr_%s.json" % short.lower()] = {
+            "frame": rng.choice(["Gui", "Builtin::Gui", "Zq::Inner"]), "class": short,
+            "instance_methods": [{"name": rng.choice(["tooltip", "qx_only", "name", "size"]), "arguments": [{"type": ["String"]}], "return_type": {"type": ["String"]}}],
+            "class_methods": [], "extends": [], "constants": []}
     if own and rng.random() < 0.7:
         short = rng.choice(own)
         files["qx_ns_%s.json" % short.lower()] = {
@@ -37,12 +47,23 @@ def extra_files(rng, mentioned):
     return files
 
 
+# programs aimed at lookups that consult the flat list of configured short names or the Object fallback
+AIMED = [
+    "module App\n  module Helper\n    def help(n)\n      n + 1\n    end\n  end\nend\n\nclass Widget\n  include App::Helper\n\n  def initialize(n)\n    @count = n\n  end\n\n  def run(x)\n    help(x) + @count\n  end\nend\n\nw = Widget.new(1)\nw.run(2)\ndbtp w.help(3)\nw.help(\"a\")\n",
+    "module Tools\n  def tool\n    :t\n  end\nend\nclass Bench\n  extend Tools\n  include Tools\nend\ndbtp Bench.tool\ndbtp Bench.new.tool\nBench.tool(1)\n",
+    "class Foo\nend\nx = Foo.methods(1)\ndbtp x\ndbtp Foo.methods\nFoo.name\nFoo.new.class\ndbtp Foo.new.to_s\nFoo.new.to_s(1)\n",
+    "module Outer\n  class Node\n    def val\n      1\n    end\n  end\n  class Leaf < Node\n  end\nend\nl = Outer::Leaf.new\ndbtp l.val\nl.nope\nOuter::Node.methods(2)\n",
+    "class Base\n  def self.build\n    new\n  end\n  def hi\n    's'\n  end\nend\nclass Derived < Base\nend\ndbtp Derived.build\ndbtp Derived.new.hi\nDerived.methods('x')\n",
+]
+
+
 def run_e2e(ctx, n, tag):
     rng = ctx.rng
     base = os.path.join(common.REPO, "test", ".ti-config")
     jobs = []
     corpus = rng.sample(common.corpus_files(), n)
     texts = [open(f, errors="replace").read() for f in corpus] + [progs.gen_program(rng, base, level=rng.choice([2, 3, 4])) for _ in range(n)]
+    texts += [a for a in AIMED for _ in range(max(5, n // 12))]
     for i, t in enumerate(texts):
         if "Qx" in t:
             continue
@@ -103,6 +124,10 @@ def run(ctx):
     if proof_ok:
         bcs = robust.builtin_classes(ctx, wd)
         dis["tok"] = common.run_stream(ctx, "tok", robust.tok_ops(ctx, ctx.pick(1200, 12000), bcs), cwd=wd)
+    if proof_ok:
+        from . import C16
+        # include / extend edges consult the flat list too (minus what the program defines at top level itself)
+        dis["lookup"] = common.run_stream(ctx, "lookup", [C16.gen_lookup(ctx.rng) for _ in range(ctx.pick(6000, 60000))])
     failures = run_e2e(ctx, ctx.pick(70, 700), "a")
 
     def search():
@@ -113,9 +138,10 @@ def run(ctx):
 
 
 def evidence(ctx):
-    ctx.assumptions += ["extra classes use short names that do not occur in the program text; a short name that equals a program identifier in another frame is the refuted case (`classify_collision`, known limitation of the flat BuiltinClasses list)"]
+    ctx.assumptions += ["extra classes either use short names that do not occur in the program text, or (lookalikes) sit in another frame and share the short name of a class or module the program defines, "
+                        "which must contain a lower-case rune: an ALL-CAPITAL program constant that equals a configured short name is classified differently (`classify_collision`, the refuted case of the flat BuiltinClasses list)"]
     common.write_evidence(ctx, LEVEL, RULE, trusted=common.BASE_TRUST + [
-        "modelled: TFrame as a Go map; Token.classify with the BuiltinClasses list", "not modelled: evaluator uses of BuiltinClasses other than token classification (end-to-end only)"])
+        "modelled: TFrame as a Go map; Token.classify with the BuiltinClasses list", "modelled: the BuiltinClasses redirect of include/extend edges in getParentMethodT (lookup stream)", "not modelled: the superclass redirect in eval/class.go (end-to-end only)"])
 
 
 def replay(ctx, path):
